@@ -1,7 +1,7 @@
 SPECIFICATION Spec
 CONSTANTS
   Alphabet = {"h", "s", ":", "/", "#", "a", "b"}
-  L = 5
+  L = 4
   N = 2
 INVARIANT StemAgrees
 CHECK_DEADLOCK FALSE
